@@ -75,14 +75,14 @@ CHECKS = {
     "C11": (
         "fault_enumeration",
         "every crash point (incl. byte prefixes of files under construction) of the recorded file-operation log of real checkpoints and weights saves",
-        "For 9-11 histories (checkpoint #1/#2/#3 and weights save #1/#2/#3 of real standard and INS runs, with and without keeping the previous checkpoint) the file operations performed by the real code are recorded; every crash point - before each operation, after the last, and every byte prefix on a lattice while a file is open - is materialised as an on-disk image and FlowSampler(resume=True) is run on it: it must succeed, the loaded sampler state must equal the previous or the new checkpoint, the loaded weights the previous or the new file (never torn, never silently random), and one image per distinct loaded class is continued to completion under the C01/C03 monitors and the C05 oracle.",
+        "For 9-11 histories (checkpoint #1/#2/#3 and weights save #1/#2/#3 of real standard and INS runs, with and without keeping the previous checkpoint) the file operations performed by the real code are recorded; every crash point - before each operation, after the last, and every byte prefix on a lattice while a file is open - is materialised as an on-disk image and FlowSampler(resume=True) is run on it: it must succeed, the loaded sampler state must equal the previous or the new checkpoint, the loaded weights the previous or the new file (never torn, never silently random), and one image per distinct loaded class is continued to completion under the C01/C03 monitors and the C05 oracle. Two-crash histories (quick: three checkpoint histories, thorough: all): from every operation-boundary image the run is resumed up to its next checkpoint and that checkpoint's operation-boundary images are enumerated again; each must load the state before or after it, never a fresh start once a checkpoint had completed. Thorough adds a real child process killed with os._exit before every operation boundary.",
         "Process-kill semantics (no power loss). torch.save's internal writes are modelled as byte prefixes of the completed file. Resume never reads the .temp file (asserted), which justifies the prefix lattice for it.",
         "4/C11",
     ),
     "C12": (
         "fault_enumeration",
         "digest comparison at every checkpoint of a configuration lattice and a kill at every likelihood call (plus kill pairs) of short runs",
-        "(a) At every checkpoint of 17 (quick) / 34 (thorough) real runs (iteration- and time-triggered, checkpoint_on_training, rejection and flow phases, populated and empty pools, masks as list and ndarray, clustering, uniform_nball, inversion, INS variants with and without saved log_q) the live sampler is digested (iteration, live and nested points, integral state, insertion indices, history, pools, training counters, reparameterisation state, acceptance bookkeeping, weights, evaluation counter), the file just written is resumed into a second object with a fresh model and the digests are compared field by field (INS log_q bitwise when saved, float32 otherwise). (b) A short run of each sampler is killed at every likelihood call and at kill pairs on a lattice, resumed and completed; the C01/C03 monitors and the C05 oracle must hold and the evaluation counter must equal the checkpointed count plus the evaluations after the resume, at every checkpoint of every leg and at the end.",
+        "(a) At every checkpoint of 17 (quick) / 34 (thorough) real runs (iteration- and time-triggered, checkpoint_on_training, rejection and flow phases, populated and empty pools, masks as list and ndarray, clustering, uniform_nball, inversion, INS variants with and without saved log_q) the live sampler is digested (iteration, live and nested points, integral state, insertion indices, history, pools, training counters, reparameterisation state, acceptance bookkeeping, weights, evaluation counter), the file just written is resumed into a second object with a fresh model and the digests are compared field by field (INS log_q bitwise when saved, float32 otherwise). (b) A short run of each sampler is killed at every likelihood call and at kill pairs on a lattice, resumed and completed; the C01/C03 monitors and the C05 oracle must hold and the evaluation counter must equal the checkpointed count plus the evaluations after the resume, at every checkpoint of every leg and at the end. The kill runs execute under a virtual clock (nessai's datetime.now() replaced: 1 s per evaluated point, 1e6 s of down time between legs, which also makes time-triggered checkpoints deterministic): the likelihood time and the sampling time at every checkpoint, after every resume and at the end must equal the harness's own ledger exactly - neither reset, nor counted twice, nor including the down time.",
         "Kills are BaseExceptions raised from the user's likelihood. AugmentedFlowProposal excluded (known finding C09/C20).",
         "4/C12",
     ),
